@@ -460,6 +460,25 @@ pub fn generate(tier: Tier, rng: &mut Rng) -> Vec<Case> {
     ] {
         push(src.to_string(), None, usize::MAX, vec!["literal-containers-and-paths"], &mut out);
     }
+    // macro bodies and guards that are binary tests whose right operand is a logged call that does
+    // not mention the iteration variable (the shape a loop-invariant hoisting would look for): left
+    // then right, once per element
+    for range in ["[1, 2]", "[1, 2, 3]", "[5]", "[]", "{1: 0, 2: 0}"] {
+        for op in ["<=", "<", "==", "!=", "+", "-", "in"] {
+            let rhs = if op == "in" { "[t(10), t(11)]" } else { "t(10)" };
+            let to_bool = if op == "+" || op == "-" { " > 0" } else { "" };
+            for body in [
+                format!("all(x, (t(x) {op} {rhs}){to_bool})"), format!("exists(x, (t(x) {op} {rhs}){to_bool})"), format!("exists_one(x, (t(x) {op} {rhs}){to_bool})"), format!("filter(x, (t(x) {op} {rhs}){to_bool})"),
+                format!("map(x, (t(x) {op} {rhs}){to_bool}, x)"), format!("map(x, t(x) {op} {rhs})"), format!("map(x, [t(x), t(20)])"), format!("all(x, (x {op} {rhs}){to_bool})"), format!("all(x, (h1(t(x)) {op} h1({rhs})){to_bool})"),
+            ] {
+                let mut tags = vec!["loop-invariant-operand"];
+                if range.starts_with('{') {
+                    tags.push("unordered");
+                }
+                push(format!("{range}.{body}"), None, usize::MAX, tags, &mut out);
+            }
+        }
+    }
     // every built-in function in both call styles over logged operands: each operand once
     {
         let ts = "t(timestamp('2024-02-29T10:11:12.345Z'))";
@@ -536,6 +555,24 @@ pub fn generate(tier: Tier, rng: &mut Rng) -> Vec<Case> {
             s = format!("m1(h2({s}, t(2)), t(3))");
         }
         push(s, None, 4 * depth + 1, vec!["chain-mixed"], &mut out);
+    }
+    // a built-in name registered again by the host with a typed signature: the newest registration
+    // is the function of that name - an argument it rejects is an error, evaluated once (the model
+    // decides)
+    {
+        let mut spec2 = ctx_spec();
+        spec2.fns.push(("string".into(), FnSpec::Host(vec!["this-bool".into()], Body::Const(Value::Int(1)))));
+        spec2.fns.push(("size".into(), FnSpec::Host(vec!["pos-str".into()], Body::Const(Value::Int(2)))));
+        spec2.fns.push(("int".into(), FnSpec::Host(vec!["this-str".into(), "pos-str".into()], Body::Const(Value::Int(3)))));
+        for src in [
+            "string(t(5))", "string(t(true))", "t(5).string()", "string(string(string(string(string(string(t(7)))))))", "size(t(1))", "size(t('a'))", "t([1]).size()", "int(t(1))", "int(t('1'), t(2))", "t('1').int(t('x'))",
+            "[1, 2].map(x, string(t(x)))", "string(t(1)) + string(t(2))", "int(string(t(true)))",
+        ] {
+            if let Some(mut c) = eval_case_from_src(&spec2, src) {
+                c.tags = vec!["re-registered-builtin"];
+                out.push(c);
+            }
+        }
     }
     out
 }
